@@ -42,7 +42,7 @@ fn main() {
 
 fn dispatch(toks: &[&str]) -> String {
     match toks[0] {
-        "enc62" | "enc53" | "dec62" | "dec53" | "trk" => img_streams::dispatch(toks),
+        "enc62" | "enc53" | "dec62" | "dec53" | "trk" | "enc35" | "dec35" | "trk35" => img_streams::dispatch(toks),
         "sectorops" => sectorops::run(toks),
         "dpbinfo" => { let d = a2kit::bios::dpb::DiskParameterBlock::create(&geom::kind_of(toks[2])); format!("{} {} {} {} {} {}",d.bsh,d.off,d.dsm,d.drm,d.exm,d.spt) },
         "crc32" | "crc16" | "imdtrk" | "codec" => codec::dispatch(toks),
